@@ -44,10 +44,11 @@ PROPS["C14"] = dict(
                 "(thorough: + request int/Vertex '' (anonymous), request bool/Vertex 'a', create_shared int/Cell 'b', create_private bool/Cell '', create_persistent bool/Vertex 'b', "
                 "create_shared bool/Vertex 'a'); quick runs the invariant-breaking chunk (set_name) after the shared first operation only"),
     dict(name="c14-k2", harness="C14_registry.cpp", entries=["harness_c14"], units=C14_UNITS, unwind=16, eh=True, checks="mem", object_bits=13, witness_any=True,
-         shards={"quick": _c14_shards([[_P_PERS, _opc(_K_HDROP, 0)]], C14_CHUNKS_MAIN),
-                 "thorough": _c14_shards([[_P_PERS, _opc(_K_HDROP, 0)]], C14_CHUNKS_MAIN + C14_CHUNKS_INV) + _c14_shards(_C14_PAIRS_THOROUGH, C14_CHUNKS_MAIN)},
+         shards={"quick": _c14_shards([[_P_PERS, _opc(_K_HDROP, 0)]], C14_CHUNKS_MAIN) + _c14_shards([[_P_SHARED, _opc(_K_REQUEST, _IV, _B)]], [13]),
+                 "thorough": _c14_shards([[_P_PERS, _opc(_K_HDROP, 0)]], C14_CHUNKS_MAIN + C14_CHUNKS_INV) + _c14_shards(_C14_PAIRS_THOROUGH, C14_CHUNKS_MAIN)
+                             + _c14_shards([[_P_SHARED, _opc(_K_REQUEST, _IV, _B)]], C14_CHUNKS_INV)},
          timeout={"quick": 300, "thorough": 600}, mem_gb=6,
-         bounds=_C14_BOUNDS + "K=2: quick: (create_persistent int/Vertex 'a', drop its handle) = the unreferenced persistent property; thorough: first in {request 'a', create_persistent 'a', "
+         bounds=_C14_BOUNDS + "K=2: quick: (create_persistent int/Vertex 'a', drop its handle) = the unreferenced persistent property, and (request 'a', request 'b') + set_name (two shared properties: name collision); thorough: first in {request 'a', create_persistent 'a', "
                 "create_private 'a'} (int/Vertex) x second in {handle copy, handle drop, set_shared off, set_persistent on, clear_all_props, mesh copy, mesh destruction, request 'b', "
                 "create_private 'a', get_property 'a'}"),
     dict(name="c14-tet", harness="C14_registry.cpp", entries=["harness_c14"], units=C14_UNITS, unwind=26, eh=True, checks="mem", object_bits=13, witness_any=True, tiers=["thorough"],
